@@ -984,6 +984,25 @@ def add_alias_restype(job, g):
     return (n, alias) if done else None
 
 
+def add_alias_other_masses(job, g):
+    """a second residue name with the atoms (names, bonds) of an existing one but atom types of other MASS: same
+    labelled graph - one shared template - but another weight (matters for a box that follows from -dens)"""
+    spec = job["spec"]
+    if len(spec["atypes"]) < 2:
+        return False
+    pair = add_alias_restype(job, g)
+    if not pair:
+        return False
+    n, alias = pair
+    masses = {a["name"]: a["mass"] for a in spec["atypes"]}
+    for atom in spec["restypes"][alias]["atoms"]:
+        others = [t for t in sorted(masses) if masses[t] != masses[atom["atype"]]]
+        if others:
+            atom["atype"] = g.choice(others)
+    job["alias_other_masses"] = True
+    return True
+
+
 def add_list_order(job, g):
     """residues listed in the itp in another order than their residue ids (side chains after each backbone residue,
     blocks numbered independently ...)"""
